@@ -13,7 +13,7 @@ META = dict(
           "empty containers [vec_step_refines_std, vec_step_guards], hence no operation sequence reaches undefined behaviour [vec_run_never_ub]; the "
           "insert_at/erase_at guards accept exactly the defined positions; range views keep b<=e<=size and read inside [b,e) [range_inv]; Map steps are "
           "total. The model and the std:: spec are run in lock step against the real engine (ASan+UBSan) on generated op sequences, comparing result, "
-          "exception and full contents after every step. String find-family and Pair are covered by the census only."),
+          "exception and full contents after every step. The string find family (one-argument prelude wrappers and three-argument forms) is an executable model checked by correspondence and by python's str.find/rfind; Pair is covered by the census only."),
     note=("Trusted: Lean kernel, extract/e_stl.py (recognises guard idioms), Spec/Stl.lean (std:: semantics over lists), harness/stl.cpp, sanitizers. "
           "Range views are exercised only while the container is not structurally modified (the property's stated scope)."),
     design_ref="DESIGN.md §6 C12")
@@ -24,12 +24,12 @@ def interesting(rng, n):
 
 
 def vec_case(rng, maxlen, kind):
-    init = [rng.range(0, 99) if kind == "vec" else rng.range(65, 90) for _ in range(rng.choice([0, 0, 1, 2, 3, 5]))]
+    init = [rng.range(0, 99) if kind == "vec" else rng.range(65, 68) for _ in range(rng.choice([0, 0, 1, 2, 3, 5, 8]))]
     n = len(init)
     ops = []
     for _ in range(rng.range(1, maxlen)):
-        k = rng.below(13 if kind == "vec" else 12)
-        v = rng.range(0, 99) if kind == "vec" else rng.range(65, 90)
+        k = rng.below(13)
+        v = rng.range(0, 99) if kind == "vec" else rng.range(65, 68)
         if k == 0:
             ops.append("idx:%d" % interesting(rng, n))
         elif k == 1 and kind == "vec":
@@ -61,6 +61,9 @@ def vec_case(rng, maxlen, kind):
             ops.append("empty")
         elif k == 10 and kind == "str":
             ops.append("sub:%d:%d" % (interesting(rng, n), rng.choice([-1, 0, 1, n, n + 1, 3])))
+        elif k == 11 and kind == "str":
+            nd = [rng.range(65, 68) for _ in range(rng.choice([0, 1, 1, 2, 3]))]
+            ops.append("srch:%s:%d:%s:%d" % (rng.choice(["1", "3"]), rng.below(6), ".".join(map(str, nd)) or "e", rng.choice([0, 1, n - 1, n, n + 1, -1, rng.range(0, n + 1)])))
         else:
             ops.append("pop" if kind == "vec" else "size")
             if kind == "vec":
@@ -81,6 +84,49 @@ def map_case(rng, maxlen):
         ops.append(rng.choice(["idx:%d" % k, "at:%d" % k, "set:%d:%d" % (k, rng.range(0, 99)), "set:%d:%d" % (k, rng.range(0, 99)), "cnt:%d" % k,
                                "era:%d" % k, "size", "empty", "clr"]))
     return "map - " + ";".join(ops)
+
+
+NPOS = 2 ** 64 - 1
+
+
+def py_search(kind, s, nd, pos):
+    """python's own string searching as an independent oracle for the Lean find-family model"""
+    if kind == 0:
+        return NPOS if pos > len(s) else (s.find(nd, pos) if s.find(nd, pos) >= 0 else NPOS)
+    if kind == 1:
+        if len(nd) > len(s):
+            return NPOS
+        r = s.rfind(nd, 0, min(pos, len(s) - len(nd)) + len(nd))
+        return r if r >= 0 else NPOS
+    idx = [i for i, c in enumerate(s) if (c in nd) != (kind >= 4)]
+    if kind in (2, 4):
+        idx = [i for i in idx if i >= pos]
+        return idx[0] if idx else NPOS
+    idx = [i for i in idx if i <= pos]
+    return idx[-1] if idx else NPOS
+
+
+def selfcheck_find_model(ctx, cases, mout):
+    bad = 0
+    for line, m in zip(cases, mout):
+        if not line.startswith("str ") or "srch" not in line:
+            continue
+        outs = C.split_model_line(m).get("model", "").split(";")
+        for op, o in zip(line.split()[2].split(";"), outs):
+            if not op.startswith("srch:"):
+                continue
+            _, form, kind, nd, p = op.split(":")
+            kind, p = int(kind), int(p)
+            body = o.split("|")[1] if "|" in o else "-"
+            s = "".join(chr(int(c)) for c in body.split(",")) if body != "-" else ""
+            needle = "".join(chr(int(c)) for c in nd.split(".")) if nd != "e" else ""
+            pos = (NPOS if kind in (1, 3, 5) else 0) if form == "1" else (p if p >= 0 else 2 ** 64 + p)
+            want = "ok size %d" % py_search(kind, s, needle, pos)
+            if not o.startswith(want + "|"):
+                bad += 1
+                if bad <= 3:
+                    ctx.notes.append("find-family model differs from python: %s on %r -> %s (python: %s)" % (op, s, o.split("|")[0], want))
+    ctx.oblige("find-family model agrees with python str.find/rfind (self-check)", bad == 0, "" if bad == 0 else "%d differences" % bad)
 
 
 def run(ctx):
@@ -109,6 +155,7 @@ def run(ctx):
 
     def canon_impl(t, line):
         return ";".join(("err" + ("|" + s.split("|", 1)[1] if "|" in s else "")) if s.startswith("err") else s for s in t.split(";"))
+    selfcheck_find_model(ctx, cases, mout)
     steps = sum(len(c.split()[2].split(";")) for c in cases)
     ctx.cov["steps"] = steps
     found = C.compare_streams(ctx, "stl", cases, mout, iout, canon_impl=canon_impl)
